@@ -203,6 +203,19 @@ func (t treeSpec) build(s *store.Store, seed *int) (*builtTree, error) {
 			return nil, err
 		}
 		return &builtTree{Kind: "fH1", Cid: c, Size: sz, Content: content}, nil
+	case "fU":
+		// a hand-written multi-block file whose interior nodes record no block
+		// sizes over dag-pb leaves (the reader has to measure the children)
+		spec, ok := gen.HandByLabel("hand 2x2 leaves=pbfile blocksizes=none filesize=true")
+		if !ok {
+			return nil, fmt.Errorf("hand-written DAG family changed")
+		}
+		c, content := spec.Build(s)
+		sz, err := model.TreeSum(s, c)
+		if err != nil {
+			return nil, err
+		}
+		return &builtTree{Kind: "fU", Cid: c, Size: sz, Content: content}, nil
 	case "fR":
 		// a hand-written multi-block file whose nodes carry UnixFS type Raw
 		spec, ok := gen.HandByLabel("hand 2x2 leaves=raw blocksizes=all filesize=true nodetype=raw")
@@ -400,6 +413,8 @@ func pathTrees(quick bool) []treeSpec {
 		treeSpec{Kind: "hamt2", Children: []treeSpec{f1, f1, f1, f1}},
 		treeSpec{Kind: "hamt2", Children: []treeSpec{f1, f1, f1, f1, f1, fN}},
 		treeSpec{Kind: "dir", Children: []treeSpec{{Kind: "hamt2", Children: []treeSpec{f1, f1, f1, f1, f1}}, f1}},
+		treeSpec{Kind: "fU"},
+		treeSpec{Kind: "dir", Children: []treeSpec{{Kind: "fU"}, f1}},
 		treeSpec{Kind: "fR"},
 		treeSpec{Kind: "dir", Children: []treeSpec{{Kind: "fR"}, f1}},
 		treeSpec{Kind: "hamt", Children: []treeSpec{f1, {Kind: "fR"}}})
